@@ -89,6 +89,8 @@ def run(ctx):
             leaves = []
             for k in range(n):
                 sc = Script([rb(32), 0xAC]) if k % 3 else Script([rb(rng.choice([1, 20, 75, 76, 300])), 0x75, 0x51])
+                if k % 4 == 2 or (n == 1 and ti % 2):
+                    sc = Script([0x51, rb(rng.choice([2, 6, 32]))])          # a leaf that ends in a data push
                 if n >= 4 and k == 1:
                     sc = Script(list(leaves[0].tap_script.commands))      # same script, other leaf version
                 ver = 0xC0 if not (n >= 4 and k == 1) else 0xC2
@@ -192,12 +194,27 @@ def run(ctx):
                                         "qg_x": B(qg.xonly()), "qg_parity": qg.parity})
                           ctx.nontriv(("altered-cb", "byte0" if pos == 0 else "key" if pos < 33 else "path", "ok" if ok2 else "raise"))
                       sraw = lf.tap_script.raw_serialize()
-                      for pos in rng.sample(range(len(sraw)), min(3, len(sraw))):
-                          alt = sraw[:pos] + bytes([sraw[pos] ^ 1]) + sraw[pos + 1:]
+                      salts = [(pos, sraw[:pos] + bytes([sraw[pos] ^ 1]) + sraw[pos + 1:]) for pos in rng.sample(range(len(sraw)), min(3, len(sraw)))]
+                      # the length byte of a final data push raised (the altered script then claims more bytes than it has)
+                      last = lf.tap_script.commands[-1] if lf.tap_script.commands else 0
+                      if isinstance(last, bytes) and 1 <= len(last) < 0x4b:
+                          lp = len(sraw) - len(last) - 1
+                          salts += [(lp, sraw[:lp] + bytes([v_]) + sraw[lp + 1:]) for v_ in sorted({len(last) + 1, len(last) + 7, 0x4b} - {len(last)}) if v_ <= 0x4b]
+                      for sj_, (pos, alt) in enumerate(salts):
                           r2 = outcome(lambda: cb[1].external_pubkey(Script.parse(raw=alt)))
                           ok2 = r2[0] == "ok" and r2[1].x is not None
-                          cases.append({"id": "%s.l%d.s%d" % (kid, k, pos), "kind": "altered", "what": "leaf-script", "res": "ok" if ok2 else "raise",
+                          cases.append({"id": "%s.l%d.s%d.%d" % (kid, k, pos, sj_), "kind": "altered", "what": "leaf-script", "res": "ok" if ok2 else "raise",
                                         "alt_x": B(r2[1].xonly()) if ok2 else [], "alt_parity": r2[1].parity if ok2 else -1, "qg_x": B(qg.xonly()), "qg_parity": qg.parity})
+                          # ... and read back through a witness stack, as the interpreter does
+                          wit2 = Witness([rb(64), alt, raw])
+                          r3 = outcome(lambda: wit2.control_block().external_pubkey(wit2.tap_script()))
+                          r4 = outcome(lambda: wit2.tap_leaf().hash())
+                          ok3 = r3[0] == "ok" and r3[1].x is not None
+                          cases.append({"id": "%s.l%d.w%d.%d" % (kid, k, pos, sj_), "kind": "altered", "what": "leaf-script-read-through-witness", "res": "ok" if ok3 else "raise",
+                                        "alt_x": B(r3[1].xonly()) if ok3 else [], "alt_parity": r3[1].parity if ok3 else -1, "qg_x": B(qg.xonly()), "qg_parity": qg.parity})
+                          if r4[0] == "ok" and r4 == outcome(lf.hash):
+                              ctx.violation("witness:altered-leaf-script-hashes-like-the-original", "tree %d leaf %d: Witness.tap_leaf() of a script altered at byte %d has the hash of the unaltered leaf"
+                                            % (ti, k, pos), {"kind": "witness-altered", "n": n, "k": k, "pos": pos, "script": sraw.hex(), "altered": alt.hex()})
     finally:
         pass
     byid = {c["id"]: c for c in cases}
